@@ -549,9 +549,29 @@ Definition str_a : list N := [97].
 Definition rf_drops (rf : option N) (key : list N) : bool :=
   match rf with Some 1 => list_eqb key str_a | _ => false end.
 
+Definition str_proto : list N := [95; 95; 112; 114; 111; 116; 111; 95; 95].
+
+Definition selects_proto (pl : option (list (list N))) : bool :=
+  match pl with Some ks => existsb (list_eqb str_proto) ks | None => false end.
+
+(* Under a property list K the members are read with [[Get]], which also sees the inherited accessor
+   "__proto__".  An object without own selected properties that has [n] prototype objects above it (the last
+   one Object.prototype, whose __proto__ is null) is therefore written {"__proto__": ... } when K selects
+   "__proto__", and {} otherwise.  (Other inherited properties an allow-list could name are functions, which
+   are skipped; allow-lists naming accessors such as Symbol.prototype.description are outside the model.) *)
+Fixpoint proto_chain_text (n : nat) (gap ind : text) : text :=
+  let ind' := ind ++ gap in
+  wrap 123 125 (nl_pre gap ind') (nl_pre gap ind)
+    [quote str_proto ++ colon gap ++
+     match n with O => [110; 117; 108; 108] | S m => proto_chain_text m gap ind' end].
+
+Definition bare_object_text (pl : option (list (list N))) (n : nat) (gap ind : text) : text :=
+  if selects_proto pl then proto_chain_text n gap ind else [123; 125].
+
 (* a non-container value after toJSON: apply the function replacer, unwrap primitive wrappers, serialise.
    [symbox_undef] = false is the specification (a Symbol wrapper is an ordinary object: "{}"). *)
-Definition ser_leaf (symbox_undef : bool) (rf : option N) (key : list N) (v : jv) : sres :=
+Definition ser_leaf (symbox_undef : bool) (pl : option (list (list N))) (rf : option N) (gap ind : text)
+                    (key : list N) (v : jv) : sres :=
   if rf_drops rf key then Some None else
   let v1 := match rf, v with
             | Some 2, VNum _ => VStr (35 :: key)
@@ -570,9 +590,9 @@ Definition ser_leaf (symbox_undef : bool) (rf : option N) (key : list N) (v : jv
     end
   | VBigInt | VBoxBigInt => None
   | VUndef | VSym | VFun => Some None
-  | VBoxSym => if symbox_undef then Some None else Some (Some [123; 125])
+  | VBoxSym => if symbox_undef then Some None else Some (Some (bare_object_text pl 2 gap ind))
   | VCyc _ => None
-  | VToJSON _ _ => Some (Some [123; 125])      (* an object whose only own property is a function *)
+  | VToJSON _ _ => Some (Some (bare_object_text pl 1 gap ind))   (* its only own property is a function *)
   | VArr _ | VObj _ => Some None               (* not reached: containers are handled by [ser] *)
   end.
 
@@ -617,9 +637,9 @@ Fixpoint ser (sb : bool) (pl : option (list (list N))) (rf : option N) (gap ind 
   | VToJSON k inner =>
     if tj then
       (if k =? 0 then ser sb pl rf gap ind false key inner
-       else if k =? 1 then ser_leaf sb rf key (VStr key)
-       else ser_leaf sb rf key VUndef)
-    else ser_leaf sb rf key v
+       else if k =? 1 then ser_leaf sb pl rf gap ind key (VStr key)
+       else ser_leaf sb pl rf gap ind key VUndef)
+    else ser_leaf sb pl rf gap ind key v
   | VArr l =>
     if rf_drops rf key then Some None else
     let ind' := ind ++ gap in
@@ -637,14 +657,17 @@ Fixpoint ser (sb : bool) (pl : option (list (list N))) (rf : option N) (gap ind 
     let ind' := ind ++ gap in
     let rs := norm_props (map (fun kv => (fst kv, ser sb pl rf gap ind' true (fst kv) (snd kv))) l) in
     let sel := match pl with
-               | Some ks => map (fun k => (k, lookup k rs (ser_leaf sb rf k VUndef))) ks
+               | Some ks => map (fun k => (k, lookup k rs
+                                                (if list_eqb k str_proto
+                                                 then Some (Some (proto_chain_text 0 gap ind'))
+                                                 else ser_leaf sb pl rf gap ind' k VUndef))) ks
                | None => rs
                end in
     match collect_members gap sel with
     | None => None
     | Some items => Some (Some (wrap 123 125 (nl_pre gap ind') (nl_pre gap ind) items))
     end
-  | _ => ser_leaf sb rf key v
+  | _ => ser_leaf sb pl rf gap ind key v
   end.
 
 (* the property list of an array replacer *)
@@ -695,3 +718,25 @@ Definition marshal_g (sb : bool) (v : jv) : sout :=
   | x => x
   end.
 
+
+(* JSON-shaped JS values (what JSON.parse can return, numbers restricted to the modelled ones) and the
+   JSON value they denote; object members in OrdinaryOwnPropertyKeys order *)
+Fixpoint json_shaped (v : jv) : bool :=
+  match v with
+  | VNull | VBool _ | VStr _ => true
+  | VNum (NQ _) | VNum NNegZero => true
+  | VArr l => forallb json_shaped l
+  | VObj l => forallb (fun kv => json_shaped (snd kv)) l
+  | _ => false
+  end.
+
+Fixpoint to_json (v : jv) : json :=
+  match v with
+  | VBool b => JBool b
+  | VNum (NQ z) => nq_json z
+  | VNum NNegZero => JNum false [48] [] None
+  | VStr s => JStr s
+  | VArr l => JArr (map to_json l)
+  | VObj l => JObj (norm_props (map (fun kv => (fst kv, to_json (snd kv))) l))
+  | _ => JNull
+  end.
